@@ -170,6 +170,26 @@ var tblAcquire = rowTable("acquire-lock", "AcquireLock", "StatusLockAlreadyAcqui
 var tblRelease = rowTable("release-lock", "ReleaseLock", "StatusLockNotFound", "StatusNoContent", "C09: 0 rows ⇒ nothing released; 1 row ⇒ released")
 var tblDeleteSchedule = rowTable("delete-schedule", "DeleteSchedule", "StatusScheduleNotFound", "StatusNoContent", "C10: delete by id")
 
+var tblReadSchedule = &tableSpec{Name: "read-schedule", Pkg: pkgCoroutines, Func: "ReadSchedule", Rename: stdRename, Relevant: notError, MinPaths: 2,
+	Why: "C10: no row ⇒ not found; a row ⇒ OK",
+	Spec: func(v *valuation) string {
+		if v.B("(read.rows == 0)") {
+			return "status:StatusScheduleNotFound"
+		}
+		return "status:StatusOK"
+	}}
+
+// operations whose only non-error answer is OK
+func constTable(name, fn string) *tableSpec {
+	return &tableSpec{Name: name, Pkg: pkgCoroutines, Func: fn, Rename: stdRename, Relevant: notError, MinPaths: 1,
+		Why:  "C15: the operation has one non-error outcome, OK",
+		Spec: func(v *valuation) string { return "status:StatusOK" }}
+}
+
+var tblHeartbeatLocks = constTable("heartbeat-locks", "HeartbeatLocks")
+var tblHeartbeatTasks = constTable("heartbeat-tasks", "HeartbeatTasks")
+var tblSearchSchedules = constTable("search-schedules", "SearchSchedules")
+
 func registrationTable(name, fn string, selfCheck bool) *tableSpec {
 	return &tableSpec{Name: name, Pkg: pkgCoroutines, Func: fn, Rename: stdRename, Relevant: notError, MinPaths: 4,
 		Why: "C05: a registration on a pending promise is Created when the guarded insert affected a row, otherwise OK (already registered / already completed); unknown promise ⇒ NotFound",
